@@ -240,7 +240,7 @@ fn table_rows(cfg: &MockConfig, node: usize, ks: &str, table: &str) -> Vec<Vec<V
                 k.tables.iter().map(move |t| vec![V::Text(k.name.clone()), V::Text(t.name.clone()), t.partitioner.clone().map(V::Text).unwrap_or(V::Null)])
             })
             .collect(),
-        ("system_schema", "scylla_keyspaces") => cfg.keyspaces.iter().map(|k| vec![text(&k.name), if k.tablets { V::Int(1) } else { V::Null }]).collect(),
+        ("system_schema", "scylla_keyspaces") => cfg.keyspaces.iter().map(|k| vec![text(&k.name), if k.tablets { V::Int(super::INITIAL_TABLETS.load(std::sync::atomic::Ordering::SeqCst)) } else { V::Null }]).collect(),
         // types, views: nothing to report
         _ => vec![],
     }
